@@ -1,7 +1,7 @@
 import PcbV.Lemmas.TextScreenWrite
 /-
   Lemmas for C36, part 3: the closed form of the reference typewriter `TW`.  After `j` characters typed from
-  the first cell of a blank window of `h = bottom − top + 1` rows and `W` columns (`W` = 40 or 80):
+  the first cell of a blank window (`bottom ≤ 25`: row 25 may belong to it, as on Tandy/PCjr) of `h = bottom − top + 1` rows and `W` columns (`W` = 40 or 80):
   the window has scrolled `twScrolls W h j` times, the character number `q` (0-based) is on screen row
   `top + q / W − scrolls`, column `q % W + 1` (if that row has not scrolled out), every other cell of the
   window is blank, rows outside the window are untouched.
@@ -96,7 +96,7 @@ theorem twScrolls_succ (W h j : Nat) : twScrolls W h (j + 1) = (j / W + 1) - h :
 theorem twInv_put {W top bottom : Nat} {rows0 : List (List Nat)} {txt : List Nat} {j : Nat}
     {B : List (List Nat)} {R C sc' x : Nat} (hW : W = 40 ∨ W = 80) (h1 : 1 ≤ top)
     (hx : txt.getD j 32 = x) (bl : B.length = 25) (brl : ∀ y ∈ B, y.length = W)
-    (bout : SameOutside top bottom B rows0) (r1 : top ≤ R) (r2 : R ≤ bottom) (b24 : bottom ≤ 24) (c1 : 1 ≤ C)
+    (bout : SameOutside top bottom B rows0) (r1 : top ≤ R) (r2 : R ≤ bottom) (b24 : bottom ≤ 25) (c1 : 1 ≤ C)
     (c2 : C ≤ W) (hq : (R - top + sc') * W + (C - 1) = j) (hsc : twScrolls W (bottom - top + 1) (j + 1) = sc')
     (hcells : ∀ ρ γ, top ≤ ρ → ρ ≤ bottom → 1 ≤ γ → γ ≤ W → (ρ ≠ R ∨ γ ≠ C) →
       cell B ρ γ = if (ρ - top + sc') * W + (γ - 1) < j then txt.getD ((ρ - top + sc') * W + (γ - 1)) 32 else 32) :
@@ -128,7 +128,7 @@ theorem twInv_put {W top bottom : Nat} {rows0 : List (List Nat)} {txt : List Nat
 
 /-- **The step of the closed form**: typing character number `j`. -/
 theorem twInv_step {W top bottom : Nat} {rows0 : List (List Nat)} {txt : List Nat} {j : Nat} {t : TW}
-    (hW : W = 40 ∨ W = 80) (h1 : 1 ≤ top) (h2 : top ≤ bottom) (h3 : bottom ≤ 24)
+    (hW : W = 40 ∨ W = 80) (h1 : 1 ≤ top) (h2 : top ≤ bottom) (h3 : bottom ≤ 25)
     (inv : TWInv W top bottom rows0 txt j t) (x : Nat) (hx : txt.getD j 32 = x) :
     TWInv W top bottom rows0 txt (j + 1) (t.put W top bottom x) := by
   by_cases hj : j = 0
@@ -212,7 +212,7 @@ theorem twInv_step {W top bottom : Nat} {rows0 : List (List Nat)} {txt : List Na
 
 /-- the closed form holds after every prefix of the text -/
 theorem twInv_type {W top bottom : Nat} {rows0 : List (List Nat)} (txt : List Nat)
-    (hW : W = 40 ∨ W = 80) (h1 : 1 ≤ top) (h2 : top ≤ bottom) (h3 : bottom ≤ 24)
+    (hW : W = 40 ∨ W = 80) (h1 : 1 ≤ top) (h2 : top ≤ bottom) (h3 : bottom ≤ 25)
     (l0 : rows0.length = 25) (rl0 : ∀ x ∈ rows0, x.length = W)
     (blank : ∀ ρ γ, top ≤ ρ → ρ ≤ bottom → cell rows0 ρ γ = 32) :
     ∀ j, j ≤ txt.length → TWInv W top bottom rows0 txt j (TW.type W top bottom ⟨rows0, top, 1⟩ (txt.take j)) := by
